@@ -156,11 +156,11 @@ class DPMultiheadAttention(nn.Module):
             del state_dict["in_proj_bias"]
 
         if "bias_k" in state_dict:
-            state_dict["seq_bias_k.bias"] = state_dict["bias_k"].squeeze()
+            state_dict["seq_bias_k.bias"] = state_dict["bias_k"].reshape(-1)
             del state_dict["bias_k"]
 
         if "bias_v" in state_dict:
-            state_dict["seq_bias_v.bias"] = state_dict["bias_v"].squeeze()
+            state_dict["seq_bias_v.bias"] = state_dict["bias_v"].reshape(-1)
             del state_dict["bias_v"]
 
         if "q_proj_weight" in state_dict:
